@@ -214,7 +214,7 @@ def check(run):
     r = gen.rng_for(run.seed, "c09")
     specs = []
     k = 0
-    want = 5000 if thorough else 900
+    want = 7000 if thorough else 2000
     while len(specs) < want:
         k += 1
         g = r.choice([None, None, "T", "a", "aT", "aTw", "I", "aI", "N", "TU", "Tdef", "TNdef"])
